@@ -23,6 +23,8 @@ var (
 	Alt     *cpualt.CPU
 	// AltCopy is made with InitFrom from the fully set-up Alt (it shares Alt's memory devices).
 	AltCopy *cpualt.CPU
+	// MainCopy is made with InitFrom from Main, over the same bus.
+	MainCopy *cpu65c816.CPU
 	// Sys is an emulator.System whose bus is a copy of MainBus (one RAM over MainMem, whole range).
 	Sys *emulator.System
 )
@@ -41,6 +43,8 @@ func init() {
 	Alt.Bus.AttachWriter(0x000000, 0xFFFFFF, func(addr uint32, val uint8) { AltMem[addr] = val })
 	AltCopy = &cpualt.CPU{}
 	AltCopy.InitFrom(Alt)
+	MainCopy = &cpu65c816.CPU{}
+	MainCopy.InitFrom(Main, MainBus)
 	Sys = &emulator.System{}
 	Sys.Bus = *MainBus
 	Sys.CPU.Init(&Sys.Bus)
